@@ -26,6 +26,11 @@ def r_transformable(rule, types=("Interval", "Grad"), root=None):
         params = [A.binding_name(i["pat"]) for i in fn["sig"]["inputs"] if "pat" in i]
         lets = [s for s in fn["body"]["stmts"] if s.get("k") == "Let"]
         key = "transform|%s" % ty
+        # first by meaning: interpret the body on symbols (any control flow whose conditions are equations on
+        # matrix entries); only a body the interpreter cannot follow is held to the familiar shape below
+        sem = _transform_by_meaning(rule, fn, ty, key)
+        if sem:
+            continue
         mp = [c for c in A.find(fn["body"], "MethodCall") if c["method"] == "map"]
         if len(mp) != 1 or A.strip(mp[0]["args"][0]).get("k") != "Closure":
             rule.bad(key + "|shape", "Transformable for %s: expected `[0, 1, 2, 3].map(|i| ..)`" % ty, A.where(fn))
@@ -110,6 +115,36 @@ def r_transformable(rule, types=("Interval", "Grad"), root=None):
             rule.ok("f32: transform_point(Point3(x, y, z)) -> (x, y, z)", file=SHAPE, line=fn["ln"])
         else:
             rule.bad("transform|f32", "Transformable for f32 must be mat.transform_point(&Point3::new(x, y, z)) returned as (out.x, out.y, out.z)", A.where(fn))
+
+
+def _transform_by_meaning(rule, fn, ty, key):
+    import sympy as sp
+
+    from . import qef as QF
+
+    try:
+        res, why = QF.transform_cases(fn)
+    except Exception:  # noqa: BLE001
+        return False
+    if res is None:
+        return False
+    cases, want = res
+    if not cases:
+        return False
+    bad = False
+    for sub, got, node in cases:
+        for k in range(3):
+            g, w = sp.sympify(got[k]).subs(sub), want[k].subs(sub)
+            if sp.simplify(g - w) != 0:
+                bad = True
+                under = (" when " + ", ".join("%s = %s" % (a, b) for a, b in sorted(sub.items(), key=str))) if sub else ""
+                rule.bad(key + ("|div%d" % k if not sub else "|case"), "Transformable for %s: component %d is `%s`%s; the homogeneous transform gives `%s` (every component is divided by the full w row, entry (3, 3) included)" % (ty, k, sp.simplify(g), under, sp.simplify(w)), A.where(fn, node))
+                break
+    if not bad:
+        rule.ok("%s: rows 0..3 computed" % ty)
+        rule.ok("%s: row = x*m[i,0] + y*m[i,1] + z*m[i,2] + m[i,3]" % ty, file=SHAPE, line=fn["ln"])
+        rule.ok("%s: result = (out[0], out[1], out[2]) / out[3] on every path (%d case(s))" % (ty, len(cases)), file=SHAPE, line=fn["ln"])
+    return True
 
 
 def shape_eval_fns(root=None):
